@@ -200,6 +200,42 @@ def test_quotes():
 def test_dc():
     assert D(a={v}, b="{s}") == snapshot(D(a=0))
 '''}
+    # the real session applies every change object twice (once for the preview diff of its category, once for the rewrite) and
+    # writes a category only when its preview diff is non-empty; the in-process helper applies once and never looks at a diff
+    P["insertions in front of kept entries, whitespace-only edits"] = {"test_something.py": f'''from inline_snapshot import snapshot
+
+
+def test_dict_front():
+    assert {{"a": 1, "b": 2, "c": {v}}} == snapshot({{"b": 2}})
+
+
+def test_list_front():
+    assert [{v}, 0, 1, 2] == snapshot([1, 2])
+
+
+def test_call_front():
+    assert dict(a=1, b={v}) == snapshot(dict(b={v}))
+
+
+def test_trailing_blanks():
+    assert "first\\nsecond\\n" == snapshot("""\\
+first  
+second
+""")
+
+
+def test_blank_inside_brackets():
+    assert [1, {v}] == snapshot([1, {v} ])
+'''}
+    P["a fix whose only textual effect is trailing whitespace"] = {"test_something.py": '''from inline_snapshot import snapshot
+
+
+def test_trailing_blanks():
+    assert "first\\nsecond\\n" == snapshot("""\\
+first  
+second
+""")
+'''}
     if not quick:
         P["nothing pending"] = {"test_something.py": f"from inline_snapshot import snapshot\n\n\ndef test_a():\n    assert {v} == snapshot({v})\n"}
         P["loop and repeated evaluation"] = {"test_something.py": f'''from inline_snapshot import snapshot
